@@ -351,7 +351,52 @@ def r4_root_selection(ctx, outs_s):
     ctx.floor(rule, 'Ok paths of alpha_beta_search', n, 2)
 
 
+def r5_cache_primitives(ctx):
+    """the probe looks up, and the store inserts under, exactly the key it is handed - one look-up / one insert, no second key built
+    inside (a probe that also tries neighbouring keys, e.g. deeper entries, answers a depth-d node with a value of another depth)"""
+    rule = 'C08.R5-cache-primitives'
+    facts = ctx.facts
+    if not resolve_cache_fns(ctx):
+        return
+    for fname, method, what in ((CHECK, 'get', 'probe'), (SET, 'insert', 'store')):
+        f = facts.need_fn(fname)
+        # key parameter = the tuple-typed parameter
+        kp = [i for i in range(1, f.arg_count + 1) if f.local_ty(i).startswith('(')]
+        outs = Engine(facts).run(fname)
+        ctx.touch(fname)
+        ops = []
+        for o in outs:
+            for e in o.events:
+                if e[0] == 'call' and 'HashMap' in e[1] and e[1].endswith('::' + method):
+                    k = strip_refs_t(e[2][1])
+                    if (e[3], k) not in ops:
+                        ops.append((e[3], k))
+        nested = sum(1 for c in facts.closures_of(fname) for b, t in c.calls() if 'HashMap' in (facts.callee_name(t) or ''))
+        ok = len(kp) == 1 and len({k for _, k in ops}) == 1 and ops and ops[0][1] == ('p', kp[0]) and nested == 0
+        if ok and what == 'probe':
+            # a hit returns the stored value, a miss returns None
+            for o in outs:
+                if o.kind != 'return':
+                    continue
+                v = o.value
+                g = [c for c in o.conds if c[0][0] == 'discr' and c[0][1][0] == 'call' and c[0][1][1].endswith('::get')]
+                if v[0] == 'agg' and v[3] == 'Some':
+                    ok = ok and bool(g) and g[0][1] == 1 and any(s_[0] == 'call' and s_[1].endswith('::get') for s_ in subterms(v))
+                elif v[0] == 'agg' and v[3] == 'None':
+                    ok = ok and bool(g) and (g[0][1] == 0 or (isinstance(g[0][1], tuple) and g[0][1][0] == 'not' and 1 in g[0][1][1]))
+        if ok and what == 'store':
+            for o in outs:
+                for e in o.events:
+                    if e[0] == 'call' and 'HashMap' in e[1] and e[1].endswith('::insert'):
+                        vp = [i for i in range(1, f.arg_count + 1) if f.local_ty(i) == 'i16']
+                        ok = ok and len(vp) == 1 and e[2][2] == ('p', vp[0])
+        ctx.ob(rule, fname, '%s uses exactly the key it is given' % what, ok,
+               found={'keys': [show(k) for _, k in ops], 'look-ups inside closures': nested}, expected='one HashMap::%s with the key parameter' % method,
+               why='the value of a node depends on every component of the key (C08.R1): an entry stored for another remaining depth or window is not its value')
+
+
 def run(ctx):
+    r5_cache_primitives(ctx)
     outs = minimax_outcomes(ctx)
     key = r1_key(ctx, outs)
     if key is None:
